@@ -111,7 +111,7 @@ FILE_NAMES = ['a.sol', 'A.SOL', 'b.Sol', 'a.t.sol', 'A.T.Sol', 'x.T.SOL', '.sol'
               'a.sol ', ' a.sol', 'a.solx', 'a.sol.txt', 't.sol', 'at.sol', 'a.tt.sol',
               # near misses of the test-file marker: one other character where the marker has its second dot, nothing there, the marker cut short
               'Vault.t_sol.sol', 'Pool.tmsol.sol', 'a.t-sol.sol', 'b.tsol.sol', 'c.t.so.sol', 'd.t.sol', 'e.txsol', 'f_t.sol', 'g.t..sol']
-DIR_NAMES = ['d', 'x.t.sol', '.hidden', 'T.SOL', 'a.sol', 'sp ace', 'ünï', '.t.ſol']
+DIR_NAMES = ['d', 'x.t.sol', '.hidden', 'T.SOL', 'a.sol', 'sp ace', 'ünï', '.t.ſol', 'lib\\v1', 'a:b', 'q?*[x]', '-dash', '~tilde', '$var', '%41']
 
 
 def native_name_family(chk, cat, pats, names):
